@@ -20,6 +20,15 @@ ASSUMPTIONS = [
 ]
 
 
+def _beyond_limit(loc):
+    for t in loc:
+        if isinstance(t, str):
+            i = rptr.canonical_index(t[1:] if t[:1] == "-" and t != "-0" else t)
+            if i is not None and i > 2 ** 53 - 1 and (t[:1] != "-" or t[1:2] != "0"):
+                return True
+    return False
+
+
 def selftest():
     from ..ref import selftest_path
 
@@ -129,6 +138,10 @@ def _check_doc(sub, doc, queries, acc, record=True):
                         ptext = str(ptr)
                         if ptext != rptr.encode(rptr.loc_tokens(loc)):
                             bad = ("pointer-text", rptr.encode(rptr.loc_tokens(loc)), ptext)
+                        elif _beyond_limit(loc):
+                            # parsing a pointer *text* with a digits-only token beyond the index limit is the documented
+                            # construction-time error: for such names the match's own pointer (checked above) is all
+                            pass
                         elif JSONPointer(ptext, unicode_escape=False).resolve(doc) is not m.obj:
                             bad = ("pointer-reparse", "the matched object", "other (unicode_escape=False)")
                         elif "\\" not in ptext and JSONPointer(ptext).resolve(doc) is not m.obj:
